@@ -189,18 +189,23 @@ class Rec:
     def __init__(self, out, cls, unsupported=()):
         self.out, self.cls = out, cls
         self.closure = {}          # non-WF results seen: key -> tuple
+        self.closure_x = {}
         self.nexc = 0
         self.unsupported = set(unsupported)   # exception names that mean "operand combination not supported"
         self.nunsupported = 0
+        self.ninputs = 0           # distinct (operation, operands) inputs executed
 
-    def note(self, kind, payload):
+    def note(self, kind, payload, srcw):
+        """remember intervals that are not well-formed: they are fed back as operands (closure tier).  closure_x:
+        produced from operands of another width (extract / extension / concat)"""
         if kind == "si":
             for t in payload:
                 if not t[4] and (t[5] or not wf_tuple(*t[:5])):
-                    self.closure.setdefault(key(t), t)
+                    (self.closure if t[0] == srcw else self.closure_x).setdefault(key(t), t)
 
     def emit(self, base, outcomes):
         """base: event without how/exc/result; outcomes: [(how, exc, kind, payload)]"""
+        self.ninputs += 1
         # merge identical outcomes
         merged = []
         for how, exc, kind, payload in outcomes:
@@ -225,7 +230,7 @@ class Rec:
             if not exc:
                 if kind == "si":
                     ev["R"] = payload
-                    self.note(kind, payload)
+                    self.note(kind, payload, base["A"][0][0])
                 elif kind == "bool":
                     ev["rb"] = payload
                 else:
@@ -268,6 +273,8 @@ def gen_pairs(job, out, rng):
     base_pop = wf_population(W, bottom=bottom)
     popA = job.get("popA") or base_pop
     popB = job.get("popB") or base_pop
+    if job.get("popX"):            # closure tier: the well-formed set plus intervals that operations returned
+        popA = popB = base_pop + [t for t in job["popX"] if t[0] == W]
     rec = Rec(out, 1 if job.get("cls") else 0)
     if job.get("cls") and job.get("part", 0) == 0:
         out.write({"k": "opset", "op": "opset", "W": W, "list": base_pop, "n": len(base_pop), "bot": 1 if bottom else 0},
@@ -468,8 +475,10 @@ def gen_triple(job, out, rng):
             i += 1
             if i % nparts != part:
                 continue
-            for tc in pop:
+            for ic, tc in enumerate(pop):
                 if rate < 1.0 and rng.random() >= rate:
+                    continue
+                if job.get("slice3") and (i * len(pop) + ic) % 97 != 0:
                     continue
                 fresh = lambda: (mk(ta), mk(tb), mk(tc))  # noqa: E731
                 base = {"A": [strip(ta)], "B": [strip(tb)], "C": [strip(tc)], "n": 3}
@@ -602,6 +611,8 @@ def gen_dsis(job, out, rng):
         ctx = "dsis-c%d" % job["collapse"]
     popD = dsis_population(W, job.get("mod3", 13))
     popD = [A for i, A in enumerate(popD) if i % job.get("mod_pop", 1) == 0]
+    if job.get("sample"):
+        popD = rng.sample(popD, min(job["sample"], len(popD)))
     popS = [[t] for t in wf_population(W)]
     rec = Rec(out, 0, unsupported=UNSUPPORTED)
     part, nparts = job.get("part", 0), job.get("nparts", 1)
@@ -618,9 +629,10 @@ def gen_dsis(job, out, rng):
         if "q" in job.get("extra", ["un", "q"]):
             ev = set_query_event(lambda: mk_dsis(A), A, W, ctx)
             out.write(ev, nontrivial_key=["q", ev["A"], ctx], outcome="q" if not ev["qexc"] else "qexc")
-        for B in popS:
+        for B in (popS if not job.get("sample") else rng.sample(popS, min(12, len(popS)))):
             dsis_events(rec, A, B, ops, ctx, kinds)            # DSIS op SI
-            dsis_events(rec, B, A, ops, ctx, kinds & {"bin", "cmp", "join", "meet"})   # SI op DSIS
+            if not job.get("no_reflect"):
+                dsis_events(rec, B, A, ops, ctx, kinds & {"bin", "cmp", "join", "meet"})   # SI op DSIS
         for j, B in enumerate(popD):
             if (i * 7919 + j) % modp == 0:
                 dsis_events(rec, A, B, ops, ctx, kinds)        # DSIS op DSIS (deterministic slice)
@@ -1068,6 +1080,16 @@ def gen_c2si(job, out, rng):
                         continue
                     c2si_event(out, TM.T(cmp_, TM.BVS("x", W), TM.BVS("y", W)), [["x", W, sx], ["y", W, sy]],
                                "annot-var", stats)
+    elif mode == "plaincmp":
+        # seeded: a comparison between a plain variable (optionally zero-extended) and a constant
+        for _ in range(job["n"]):
+            i += 1
+            n = rng.choice([0, 0, 1, 2])
+            lhs = TM.BVS("x", W) if n == 0 else TM.T("ZeroExt", TM.BVS("x", W), ints=(n,))
+            t = TM.T(rng.choice(T_CMP), lhs, TM.BVV(rng.getrandbits(W + n), W + n))
+            if i % nparts != part:
+                continue
+            c2si_event(out, t, [["x", W, None]], "plaincmp", stats)
     elif mode == "bool":
         # And / Or / Not of two simple constraints (deterministic catalogue from a fixed seed)
         r2 = random.Random(job.get("catseed", 4242))
@@ -1098,7 +1120,120 @@ def gen_c2si(job, out, rng):
     return stats
 
 
-GENS = {"pairs": gen_pairs, "unary": gen_unary, "concatx": gen_concat_x, "query": gen_query, "triple": gen_triple,
+# ----------------------------------------------------------------------------------------------
+# wide widths (8..64 bits): random well-formed intervals, sampled member pairs, values as LSB-first bit lists
+# ----------------------------------------------------------------------------------------------
+
+def wide_enc(x):
+    w = x.bits
+    big = x.stride >= (1 << w)
+    return {"w": w, "s": TM.bits(0 if big else x.stride, w), "lb": TM.bits(x.lower_bound, w),
+            "ub": TM.bits(x.upper_bound, w), "bot": 1 if x.is_empty else 0, "sbig": 1 if big else 0}
+
+
+def rand_wide(rng, w):
+    """a random well-formed interval with wrapping / stride edge forms; returns (StridedInterval, member sampler)"""
+    from claripy.backends.backend_vsa import StridedInterval
+    m = 1 << w
+    form = rng.choice(["single", "top", "dense", "pow2", "odd", "wrap", "pole"])
+    if form == "single":
+        lb, s, k = rng.getrandbits(w), 0, 0
+    elif form == "top":
+        lb, s, k = 0, 1, m - 1
+    elif form == "dense":
+        lb, s, k = rng.getrandbits(w), 1, rng.getrandbits(rng.randint(1, w - 1))
+    elif form == "pow2":
+        s = 1 << rng.randint(0, w - 2)
+        lb, k = rng.getrandbits(w), rng.randint(1, max(1, (m // s) - 1))
+    elif form == "odd":
+        s = rng.getrandbits(rng.randint(1, w - 1)) | 1
+        lb, k = rng.getrandbits(w), rng.randint(1, max(1, (m // s) - 1))
+    elif form == "wrap":
+        s = rng.choice([1, 2, 3, 4, 7, 8, 255, 256]) % m or 1
+        lb = m - rng.randint(1, min(m - 1, 1000))
+        k = rng.randint(1, max(1, min((m // s) - 1, 5000)))
+    else:
+        s = rng.choice([1, 2, 3, 5, 16])
+        lb = (m >> 1) - rng.randint(0, min((m >> 1) - 1, 40))
+        k = rng.randint(1, max(1, min((m // s) - 1, 200)))
+    k = min(k, (m - 1) // s) if s else 0
+    ub = (lb + k * s) % m
+    x = StridedInterval(bits=w, stride=s, lower_bound=lb, upper_bound=ub)
+    if x.stride == 0:
+        k = 0
+
+    def member():
+        j = rng.choice([0, k, rng.randint(0, k)]) if k else 0
+        return (lb + j * s) % m
+    return x, member
+
+
+WIDE_BIN = {"add": lambda a, b: be_call("__add__", (a, b)), "sub": lambda a, b: be_call("__sub__", (a, b)),
+            "union": lambda a, b: a.union(b)}
+WIDE_CMP = {"ULT": lambda a, b: be_call("ULT", (a, b)), "ULE": lambda a, b: be_call("ULE", (a, b)),
+            "UGT": lambda a, b: be_call("UGT", (a, b)), "UGE": lambda a, b: be_call("UGE", (a, b))}
+
+
+def gen_wide(job, out, rng):
+    npairs = job.get("pairs", 16)
+    stats = {}
+    for i in range(job["n"]):
+        w = rng.choice(job.get("widths", [8, 16, 32, 64]))
+        a, ma = rand_wide(rng, w)
+        b, mb = rand_wide(rng, w)
+        xs = [[TM.bits(ma(), w), TM.bits(mb(), w)] for _ in range(npairs)]
+        base = {"k": "wide", "a": wide_enc(a), "b": wide_enc(b), "xs": xs, "how": "be", "cls": 0, "ctx": "wide",
+                "rb": [1, 1]}
+        ops = list(WIDE_BIN.items()) + list(WIDE_CMP.items()) + [("not", lambda x, y: be_call("__invert__", (x,)))]
+        if a.is_integer and w >= 16:
+            ops.append(("rev", lambda x, y: be_call("Reverse", (x,))))
+        for op, f in ops:
+            exc, r = guarded(lambda: f(a.copy(), b.copy()))
+            ev = dict(base, op=op, exc=exc, r=wide_enc(a))
+            if not exc:
+                from claripy.backends.backend_vsa import BoolResult, StridedInterval
+                if isinstance(r, BoolResult):
+                    ev["rb"] = [1 if False in r.value else 0, 1 if True in r.value else 0]
+                elif isinstance(r, StridedInterval) and type(r) is StridedInterval:
+                    if r._reversed:
+                        r = r._reverse()
+                    ev["r"] = wide_enc(r)
+                else:
+                    ev["exc"] = "ResultType:" + type(r).__name__
+            out.write(ev, nontrivial_key=[op, ev["a"], ev["b"]], outcome=(ev["exc"] or "ok"),
+                      sample={"op": op, "a": [w, a.stride, a.lower_bound, a.upper_bound],
+                              "b": [w, b.stride, b.lower_bound, b.upper_bound]} if i < 2 else None)
+    return stats
+
+
+def gen_replay(job, out, rng):
+    """re-execute the inputs of recorded events on the current tree (./check --replay)"""
+    rec = Rec(out, 0)
+    stats = {}
+    for ev in job["events"]:
+        k = ev["k"]
+        if k in ("bin", "cmp", "cat", "join", "meet") and len(ev["A"]) == 1 and len(ev.get("B", [])) == 1 \
+                and ev.get("n", 2) == 2 and ev.get("ctx", "si") == "si":
+            op = ev["op"]
+            pair_events(rec, {k}, [op], ev["A"][0], ev["B"][0])
+        elif k in ("bin", "cmp", "cat", "join", "meet"):
+            rec2 = Rec(out, 0, unsupported=UNSUPPORTED)
+            dsis_events(rec2, ev["A"], ev["B"], [ev["op"]], ev.get("ctx", "dsis"), {k})
+        elif k == "conv":
+            conv_event(out, ev["t"], [[n, w, (v[0] if v else None)] for n, w, v in ev["vars"]], ev.get("ctx", "replay"),
+                       stats)
+        elif k == "c2si":
+            c2si_event(out, ev["c"], [[n, w, (v[0] if v else None)] for n, w, v in ev["vars"]], ev["op"], stats)
+        elif k == "q" and ev.get("mode") == "si":
+            e2 = query_event(ev["A"][0])
+            e2.update({"cls": 0, "exc": "", "how": "meth", "ctx": "si"})
+            out.write(e2, outcome="q")
+        elif k == "un" and len(ev["A"]) == 1:
+            gen_unary({"W": ev["A"][0][0], "popA": [ev["A"][0]], "maxw": max(6, ev["A"][0][0] + 2)}, out, rng)
+    return rec
+
+
+GENS = {"replay": gen_replay, "wide": gen_wide, "pairs": gen_pairs, "unary": gen_unary, "concatx": gen_concat_x, "query": gen_query, "triple": gen_triple,
         "dsis": gen_dsis, "vs": gen_vs, "conv": gen_conv, "c2si": gen_c2si}
 
 
@@ -1109,14 +1244,33 @@ def main():
     signal.signal(signal.SIGALRM, _alarm)
     rng = random.Random(job.get("seed", 0))
     out = ShardWriter(sys.argv[2], job.get("shard", 20000))
-    rec = GENS[job["gen"]](job, out, rng)
-    extra = {}
-    if isinstance(rec, Rec):
-        extra["closure"] = list(rec.closure.values())
-        extra["nexc"] = rec.nexc
-        extra["unsupported"] = rec.nunsupported
-    elif isinstance(rec, dict):
-        extra.update(rec)
+    subjobs = job["jobs"] if job["gen"] == "multi" else [job]
+    extra = {"closure": [], "closure_x": [], "nexc": 0, "unsupported": 0, "inputs": 0}
+    seen = set()
+    real_write = out.write
+    for sub in subjobs:
+        tag = sub.get("tag", "det")
+
+        def tagged_write(ev, *a, _tag=tag, **k):
+            ev["tg"] = _tag
+            extra["ev_" + _tag] = extra.get("ev_" + _tag, 0) + 1
+            return real_write(ev, *a, **k)
+        # operations of a harvest job are executed only to collect the closure intervals, nothing is recorded
+        out.write = (lambda *a, **k: None) if sub.get("harvest") else tagged_write
+        rec = GENS[sub["gen"]](sub, out, random.Random(sub.get("seed", 0)))
+        if isinstance(rec, Rec):
+            for nm, d in (("closure", rec.closure), ("closure_x", rec.closure_x)):
+                for t in d.values():
+                    if (nm, key(t)) not in seen:
+                        seen.add((nm, key(t)))
+                        extra[nm].append(t)
+            extra["nexc"] += rec.nexc
+            extra["unsupported"] += rec.nunsupported
+            extra["inputs"] += rec.ninputs
+        elif isinstance(rec, dict):
+            for k, v in rec.items():
+                extra[k] = extra.get(k, 0) + v
+    out.write = real_write
     out.close(extra)
 
 
